@@ -1,6 +1,7 @@
 package props
 
 import (
+	"fmt"
 	"go/ast"
 	"go/token"
 	"go/types"
@@ -359,4 +360,85 @@ func closedHandleIsForgotten(c *core.Ctx) {
 			"a path closes the ethernet handle and returns with the closed handle still in netIfa.ethernetInterface: the next link-down takes it for a run in progress, closes the previous run's done channel again (panic: close of closed channel) and closes the handle a second time")
 	}
 	c.Check(n >= 1, rule, "methods closing the handle found", 0, "no netIfa method closes the ethernet handle")
+}
+
+// levelHandlesGuarded: an interface may be configured for level 1 only, level 2 only or both; the per-level neighbor
+// manager and the per-level configuration are nil for a level that is not configured.  Every method call on
+// netIfa.neighborManagerL1/L2 and every field access through InterfaceConfig.Level1/Level2 needs a fact that the
+// pointer is not nil (or sits in a function listed with the reason why it is reached only for that level).  A link
+// event on a level-1-only interface otherwise crashes LSP origination, the CSNP tick or the SRM flagging.
+func levelHandlesGuarded(c *core.Ctx) {
+	const rule = "level-handle-guarded"
+	p := c.P
+	exempt := map[string]string{
+		isisSrv + ".(*neighbor).extendedISReachabilityNeighbor": "called for neighbors of the level-2 manager only (getNeighborsUp of neighborManagerL2), which exists iff cfg.Level2 does (newNetIfa)",
+	}
+	fields := map[*types.Var]bool{}
+	for _, spec := range [][3]string{{isisSrv, "netIfa", "neighborManagerL1"}, {isisSrv, "netIfa", "neighborManagerL2"}, {isisSrv, "InterfaceConfig", "Level1"}, {isisSrv, "InterfaceConfig", "Level2"}} {
+		if fv := p.Field(spec[0], spec[1], spec[2]); fv != nil {
+			fields[fv] = true
+		}
+	}
+	c.Check(len(fields) == 4, rule, "level fields", 0, "netIfa.neighborManagerL1/L2 or InterfaceConfig.Level1/Level2 not found")
+	n := 0
+	for _, f := range p.FuncsIn(isisSrv) {
+		if f.Decl.Body == nil || isTestFn(p, f) {
+			continue
+		}
+		ord := 0
+		ast.Inspect(f.Decl.Body, func(nd ast.Node) bool {
+			se, ok := nd.(*ast.SelectorExpr)
+			if !ok {
+				return true
+			}
+			inner, ok := core.Unparen(se.X).(*ast.SelectorExpr)
+			if !ok || !fields[core.FieldOf(f.Pkg, inner)] {
+				return true
+			}
+			ord++
+			n++
+			c.Analysed(f)
+			construct := fmt.Sprintf("%s use #%d of %s", f.Name(), ord, core.ExprString(inner))
+			if why, ok := exempt[f.Name()]; ok {
+				c.Hold(rule, construct, se.Pos(), "exempt: "+why)
+				return true
+			}
+			okNN := core.KnownNonNil(f.Pkg, core.FactsAt(f, se), inner)
+			if !okNN {
+				// several early returns that only together exclude nil (holdingTimer): decide the path condition of the
+				// enclosing statement propositionally over the atoms `x == nil`
+				if pc, err := core.ExtractPathConds(f); err == nil {
+					// the innermost statement containing the use
+					var inSt ast.Stmt
+					for st := range pc.Cond {
+						if st.Pos() <= se.Pos() && se.End() <= st.End() && (inSt == nil || st.End()-st.Pos() < inSt.End()-inSt.Pos()) {
+							if ifs, isIf := st.(*ast.IfStmt); isIf && !(ifs.Cond.Pos() <= se.Pos() && se.End() <= ifs.Cond.End()) {
+								continue // inside the body or else branch: a narrower statement has the condition
+							}
+							inSt = st
+						}
+					}
+					for st, fm := range pc.Cond {
+						if st == inSt {
+							want := core.ExprString(inner)
+							classify := func(e ast.Expr) (string, bool, bool) {
+								be, ok := core.Unparen(e).(*ast.BinaryExpr)
+								if !ok || (be.Op != token.EQL && be.Op != token.NEQ) || !core.IsNilIdent(f.Pkg, be.Y) {
+									return "", false, false
+								}
+								return core.ExprString(be.X), be.Op == token.NEQ, true
+							}
+							if holds, _ := formulaImplies(f, fm, classify, func(v map[string]bool) bool { return !v[want] }); holds {
+								okNN = true
+							}
+						}
+					}
+				}
+			}
+			c.Check(okNN, rule, construct, se.Pos(),
+				fmt.Sprintf("`%s` is used without a nil test, and it is nil on an interface that is not configured for that level: LSP origination, the CSNP tick or the SRM flagging crash on a link event for a level-1-only interface", core.ExprString(inner)))
+			return true
+		})
+	}
+	c.Check(n >= 8, rule, "level handle uses found", 0, fmt.Sprintf("found %d, floor 8", n))
 }
